@@ -20,8 +20,10 @@ RULE = (
     "mu2_to == mu2_from) at a1 == a0; 'comp-ns' (NS exact x3, expanded x3, ordered-truncated; orders 1-4; optional round "
     "trip a2 = a0), 'comp-s-lo' (LO singlet, gamma0 = V diag(l) V^-1 with |l1-l2| >= 0.5, cond(V) <= 10), 'comp-s-iter' "
     "(singlet iterate-exact, orders 2-4, composition defect D(n) at n = 32, 64 steps). nf in 3..6; complex gamma_k in "
-    "the disc |gamma_k| <= 10^(k+1) (2x2: every entry); couplings log-uniform in [0.002,0.05], the three couplings of a "
-    "composition pairwise separated by |ln ratio| >= 0.05 by construction, in any order (a1 may lie outside [a0,a2]). "
+    "the disc |gamma_k| <= 10^(k+1) (2x2: every entry); couplings log-uniform in [0.002,0.05]; coupling triples of a "
+    "composition: 'generic' (3/10: pairwise |ln ratio| >= 0.05 by construction, any order, a1 may lie outside "
+    "[a0,a2]), 'near01'/'near12'/'near02' (2/10 each: the named pair nearly coincident but different, a_j = a_i(1 +- "
+    "delta), delta = 10^-(k+u), k uniform in 3..9, u in [0,1]), 'round-trip' (1/10, a2 == a0; not for the iterated singlet). "
     "Non-trivial = order >= 2 (identity and NS composition kinds) / three pairwise different couplings (singlet "
     "kinds); distinct by the full case."
 )
@@ -36,6 +38,8 @@ ASSUMPTIONS = [
     "tree: observed maximum 0.12 of the bound, observed D(32)/D(64) in [3.99, 4.01])",
     "iterate towers whose gamma(a) has a relative eigenvalue gap < 1e-3 somewhere on the path are discarded (the 2x2 "
     "closed-form exponential divides by the gap; outside the stated domain of C23)",
+    "nearly coincident couplings use the same tolerances: a kernel over a step of relative size delta is 1 + O(delta) "
+    "with rounding error eps*|gamma|/beta0 in the exponent, so the group law holds to ~1e-15 on the unchanged tree",
     "QED kernels: equal couplings imply equal scales, so the pure-QED factor is evaluated at mu2_to == mu2_from",
 ]
 LEVEL_TEXT = (
@@ -101,6 +105,31 @@ def _third(draw, a0, a1):
     return math.exp(allowed[-1][1])
 
 
+def _nearby(draw, a):
+    """a (1 +- delta), delta = 10^-(k+u), k uniform in 3..9, u in [0,1]; reflected at the border of [LO, HI]."""
+    delta = 10.0 ** (-draw(st.integers(3, 9)) - draw(vs.floats(0.0, 1.0)))
+    b = a * (1 + delta) if draw(st.booleans()) else a * (1 - delta)
+    if not LO <= b <= HI:
+        b = a * a / b
+    return b
+
+
+def _triple(draw, allow_round_trip):
+    """(a0, a1, a2): generic (pairwise |ln ratio| >= MINLOG), round trip a2 == a0, or two nearly coincident members."""
+    a0, a1 = draw(vs.coupling_pair(LO, HI, MINLOG))
+    shape = draw(st.sampled_from(["generic"] * 3 + ["near01", "near12", "near02"] * 2 + (["round-trip"] if allow_round_trip else [])))
+    if shape == "round-trip":
+        return [a0, a1, a0], shape
+    if shape == "near01":
+        a1 = _nearby(draw, a0)
+    a2 = draw(_third(a0, a1))
+    if shape == "near12":
+        a2 = _nearby(draw, a1)
+    elif shape == "near02":
+        a2 = _nearby(draw, a0)
+    return [a0, a1, a2], shape
+
+
 def _tower_ns(draw, n):
     return [draw(vs.complex_disc(10.0 ** (k + 1))) for k in range(n)]
 
@@ -152,23 +181,20 @@ def _case(draw):
         case["steps"] = draw(st.integers(1, 4))
         case["mu2"] = draw(vs.log_floats(1.0, 1e4))
     else:
-        a0, a1 = draw(vs.coupling_pair(LO, HI, MINLOG))
         if kind == "comp-ns":
             n = case["n"] = draw(st.integers(1, 4))
             case["method"] = draw(st.sampled_from(COMPOSING_NS + ["ORDERED_TRUNCATED"] * 2))
             case["gamma"] = _tower_ns(draw, n)
-            round_trip = draw(st.sampled_from([False] * 5 + [True]))
-            case["a"] = [a0, a1, a0 if round_trip else draw(_third(a0, a1))]
+            case["a"], case["shape"] = _triple(draw, True)
         elif kind == "comp-s-lo":
             case["n"] = 1
             case["method"] = draw(st.sampled_from(ALL_METHODS))
             case["mat"] = draw(km.spectral_case(2, kappa_max=10.0, norm_max=30.0, min_sep=0.5, max_cells=12))
-            round_trip = draw(st.sampled_from([False] * 5 + [True]))
-            case["a"] = [a0, a1, a0 if round_trip else draw(_third(a0, a1))]
+            case["a"], case["shape"] = _triple(draw, True)
         else:
             n = case["n"] = draw(st.integers(2, 4))
             case["gamma"] = _tower_s(draw, n)
-            case["a"] = [a0, a1, draw(_third(a0, a1))]
+            case["a"], case["shape"] = _triple(draw, False)
     return case
 
 
@@ -262,6 +288,11 @@ def check_case(case):
     a0, a1, a2 = (float(x) for x in case["a"])
     round_trip = a2 == a0
     res.classes.append("round-trip" if round_trip else ("a1-between" if (a0 < a1 < a2 or a0 > a1 > a2) else "a1-outside"))
+    res.classes.append("triple:" + case.get("shape", "generic"))
+    if case.get("shape", "").startswith("near"):
+        i, j = int(case["shape"][4]), int(case["shape"][5])
+        rel = abs(case["a"][j] - case["a"][i]) / case["a"][i]
+        res.classes.append(f"near-step:1e{math.floor(math.log10(rel))}" if rel > 0 else "near-step:0")
 
     # ------------------------------------------------------------------ NS composition
     if kind == "comp-ns":
